@@ -165,6 +165,10 @@ func TestC13_Sort(t *testing.T) {
 		in := make([]jv.Val, n)
 		keys := make([]jv.Val, n)
 		bad := false
+		// the *_by functions over plain values with the element itself as key
+		// (&@): equal numbers in different spellings are still told apart, so
+		// stability is observable -- and sort_by(x, &@) is not sort(x)
+		plainBy := by && rapid.IntRange(0, 3).Draw(t, "plainby") == 0
 		// the keys in input order: random, or in one of the orders that sort
 		// routines treat specially (already sorted, reversed, non-increasing or
 		// non-decreasing runs with ties, organ pipe, sorted except for one
@@ -237,7 +241,7 @@ func TestC13_Sort(t *testing.T) {
 				bad = true
 			}
 			keys[i] = k
-			if by {
+			if by && !plainBy {
 				in[i] = jv.VObj([]jv.Member{{K: "k", V: k}, {K: "id", V: jv.VInt(int64(i))}})
 			} else {
 				in[i] = k
@@ -256,7 +260,12 @@ func TestC13_Sort(t *testing.T) {
 		if by {
 			ref := ast.Expr(ast.F("k"))
 			letVar := false
-			switch rapid.IntRange(0, 9).Draw(t, "refkind") {
+			refKind := rapid.IntRange(0, 9).Draw(t, "refkind")
+			if plainBy {
+				ref = gen.Pick(t, "selfkey", []ast.Expr{ast.Cur(), ast.Cur(), ast.Paren(ast.Cur()), ast.Call("not_null", ast.A(ast.Cur()))})
+				refKind = 9
+			}
+			switch refKind {
 			case 0:
 				ref = ast.Call("not_null", ast.A(ast.F("k")))
 			case 1: // the key expression reads a variable of the enclosing scope for every element
